@@ -1067,3 +1067,36 @@ def relock_sites(prog):
                 if inner:
                     out.append((b, t, t2, c2, f"inside {last_seg(cb.defp)}"))
     return out
+
+
+def datagram_decoder_none_leaves_nothing(prog):
+    """A decoder that reads *datagrams* (the codec of a `UdpFramed`) is called once per datagram through `decode_eof`, whose default body turns
+    `Ok(None)` with bytes still in the buffer into an error of the whole stream ("bytes remaining on stream") - the reader's task ends. So
+    such a decoder may answer `None` (drop this datagram) only with the buffer emptied, on every path - or it overrides `decode_eof`.
+    Decided with the buffer-length interpreter, per path, where the answer is built. Returns [(decoder body, where, ok, detail)] and the
+    number of datagram decoders found."""
+    from . import c07
+    an, _ = c07.analysis(prog)
+    codecs = set()
+    for b in prog.prod_bodies():
+        for (_, c, _) in b.calls():
+            if c.name == "UdpFramed::new" and c.args:
+                codecs.add(re.sub(r"<.*$", "", c.args[0].get("s") or ""))
+    rows, n = [], 0
+    eof_impls = {d.impl_self_def for d in prog.methods_of_trait_impls("Decoder", "decode_eof")}
+    for d in prog.methods_of_trait_impls("Decoder", "decode"):
+        sd = d.impl_self_def or ""
+        if not any(cn and (sd == cn or sd.endswith("::" + cn)) for cn in codecs):
+            continue
+        n += 1
+        if sd in eof_impls:
+            continue
+        for ev in an.events.get(d.defp, []):
+            if ev[1] != "none-leaves":
+                continue
+            for (i_, empty, ln) in ev[2]:
+                rows.append((d, loc(ev[4]) if ev[4] else loc(d.sp), empty,
+                             "the datagram's buffer is empty when the decoder answers None" if empty else
+                             f"the decoder answers Ok(None) for a datagram while its buffer may still hold bytes (length {ln}): UdpFramed calls decode_eof, whose default turns "
+                             "`None` with bytes remaining into an error of the stream - one dropped datagram (e.g. a replayed or stale packet id) ends the task that reads the socket"))
+    return rows, n
